@@ -399,6 +399,19 @@ func runC12(c *core.Ctx) {
 		}
 	}
 
+	c.Rule("C12.memberthenfinish", "the C19.memberthenfinish obligations, reported under this property as well (a legal call sequence produces exactly the accepted entries: a union whose member is set after the enclosing map's finish hook ran is stored empty)", 2)
+	{
+		sub := &core.Ctx{P: p, Prop: "C12"}
+		runC19(sub)
+		for _, o := range sub.Obls {
+			if o.Rule == "C19.memberthenfinish" && !strings.HasSuffix(o.Construct, "#instance-floor") {
+				o.Rule = "C12.memberthenfinish"
+				o.Property = "C12"
+				c.Obls = append(c.Obls, o)
+			}
+		}
+	}
+
 	c.Rule("C12.finishhook", finishHookText, 10)
 	checkFinishHook(c)
 
